@@ -41,10 +41,18 @@ def gen_case(rng, pools):
             s = rel.gen_struct(rng, pools, maxdepth=2)
             if rng.random() < 0.06:
                 z, A = rng.choice(pools.nodata)
-                s = s + [(rng.choice([1, 2, 0.5]), (z, A, 0))]
+                # (also with count zero: the atom is still a part of the material, the result still unknown)
+                s = s + [(rng.choice([1, 2, 0.5, 0.0, 0.0]), (z, A, 0))]
+            elif rng.random() < 0.06:
+                # a material without atoms: the empty formula, or a material multiplied by zero
+                s = [] if rng.random() < 0.5 else [(0.0, s)]
             mats.append(s)
     r = rng.random()
-    if r < 0.05:
+    empty = [i for i, s in enumerate(mats) if not s or (len(s) == 1 and s[0][0] == 0.0 and not pyside.is_key(s[0][1]))]
+    if empty and rng.random() < 0.5:
+        # all the weight on the materials without atoms: nothing is there (zeros), at any density
+        weights = [float(rng.choice([1, 2, 0.5])) if i in empty else 0.0 for i in range(n)]
+    elif r < 0.05:
         weights = [0.0] * n
     else:
         weights = [rng.choice([0.0, 1.0, 2.0, 0.5, 10.0, 1e-3]) if rng.random() < 0.5
@@ -70,6 +78,32 @@ def gen_case(rng, pools):
         # whole-number wavelengths (given as a list of ints or an integer array below)
         mode, ws = "vector", [float(rng.randint(1, 12)) for _ in range(rng.randint(1, 5))]
     return dict(materials=mats, weights=weights, density=density, mode=mode, ws=ws)
+
+
+_REVISED = []
+
+
+def revised_table():
+    """a private table in which the scattering lengths and cross sections of every atom with data are revised"""
+    if not _REVISED:
+        from periodictable import core, mass, density, nsf
+        core.PRIVATE_TABLES.pop("c17-revised", None)
+        T = core.PeriodicTable("c17-revised")
+        mass.init(T); density.init(T); nsf.init(T)
+        seen = set()
+        for el in T:
+            for x in [el] + [el[a] for a in el.isotopes]:
+                nrec = x.__dict__.get("neutron")
+                if nrec is None or id(nrec) in seen or not nrec.has_sld():
+                    continue
+                seen.add(id(nrec))
+                k = 1.0 + 0.1 * ((x.number % 5) + 1)
+                nrec.b_c = nrec.b_c * k
+                nrec.b_c_complex = nrec.b_c_complex * k
+                if nrec.total is not None:
+                    nrec.total = nrec.total * k * k
+        _REVISED.append(T)
+    return _REVISED[0]
 
 
 def weighted_formula(pt, case):
@@ -175,6 +209,32 @@ def eval_real(pt, case):
                                 j, i, float(a[j][i]), float(b[j][i]))
         except Exception as e:  # noqa
             out["second"] = "raises %s: %s" % (type(e).__name__, e)
+    # materials from two tables in one list (a private table with revised scattering lengths next to the public
+    # one): the calculator still equals the direct calculation on the weighted sum, in either order
+    out["mixed"] = None
+    if res is not None and zlib.crc32(repr(case["materials"]).encode()) % 3 == 1 and case["density"] > 0 and len(ms) >= 1:
+        try:
+            from periodictable.formulas import formula as _formula
+            T = revised_table()
+            priv = [_formula(pyside.struct_objs(s_, T)) for s_ in case["materials"]]
+            for order in (priv + list(ms), list(ms) + priv):
+                wts = [0.5 + 0.75 * i for i in range(len(order))]
+                calc3 = nsf.neutron_composite_sld(order, wavelength=warg)
+                r3 = calc3(np.array(wts, dtype=float), density=case["density"])
+                mix3 = functools.reduce(operator.add, [w * m for w, m in zip(wts, order)])
+                d3 = nsf.neutron_sld(mix3, density=case["density"], wavelength=warg)
+                if (r3[0] is None) != (d3[0] is None):
+                    out["mixed"] = "composite %r, direct %r" % (r3[0] is None, d3[0] is None)
+                elif r3[0] is not None:
+                    a = [np.broadcast_to(np.asarray(v, dtype=float), (n,)) for v in r3]
+                    b = [np.broadcast_to(np.asarray(v, dtype=float), (n,)) for v in d3]
+                    for i in range(n):
+                        for j in range(2):
+                            if not close(float(a[j][i]), float(b[j][i]), rel=1e-8, abs_=1e-12 * (1 + abs(float(b[0][i])))):
+                                out["mixed"] = "component %d at wavelength %d: composite %r, direct %r" % (
+                                    j, i, float(a[j][i]), float(b[j][i]))
+        except Exception as e:  # noqa
+            out["mixed"] = "raises %s: %s" % (type(e).__name__, e)
     atoms = nc.atoms_of(mix)
     out["N"] = nc.number_density(pt, atoms, case["density"]) if atoms else 0.0
     out["tot"] = [0.0 if isinstance(f, str) else nc.sigma_total_xs(f) for f in out["direct_full"]]
@@ -202,6 +262,9 @@ def judge(run, pt, case, replies):
     # ---- the property on the real code
     if out.get("direct_raises"):
         run.violation("the direct calculation on the weighted sum raises %s" % out["direct_raises"], case, site="direct-raises")
+    if out.get("mixed"):
+        run.violation("materials of a private table (revised neutron data) and of the public table in one calculator differ "
+                      "from the direct calculation on their weighted sum: %s" % out["mixed"], case, site="mixed-tables")
     if out.get("second"):
         run.violation("a second calculator built from derived materials (2.5*m, m += H2O) disagrees with the direct "
                       "calculation: %s" % out["second"], case, site="second-calculator")
